@@ -298,5 +298,10 @@ def run(ctx, driver):
                 ctx.violation("correspondence", "history-crash", f"running a history failed: {e!r}", c)
 
 
+def extract(ctx):
+    from harness import extract_ast
+    extract_ast.gen_helper_table()
+
+
 def search(ctx):
     pass
